@@ -61,6 +61,8 @@ def _judge(ctx, trace, nlines, mon_cfg, conf_cfg, tag):
     if mon.depth != nlines + 1:
         raise vlib.Infra("monitor %s did not consume the whole trace (%d of %d)" % (mon_cfg, mon.depth - 1, nlines))
     mism = _mismatches(mon.out)
+    if len(mism) != mon.out.count('"MISMATCH"'):
+        raise vlib.Infra("monitor %s printed %d MISMATCH tuples but %d were parsed" % (mon_cfg, mon.out.count('"MISMATCH"'), len(mism)))
     drift = None
     if conf.violated:
         drift = "%s: %s violated on the real trace at line %d" % (conf_cfg, conf.violated, conf.depth)
